@@ -1,5 +1,5 @@
 """C11 — Matrix URIs: parse totality, encoder covers the decoder's special bytes, sanitizer must-pass-through, writer/reader tables agree."""
-import re
+import re, json
 from .. import dex as D, world as W, mir as M
 from . import panic_common as PC, util as U
 
@@ -313,6 +313,36 @@ def run(ctx):
                               f"`action=send+message` is read back as `send+message`")
         else:
             ctx.ok("C11.query-codec", f"C11.query-codec:{ty}", w.where(parse), "Display does not use the form-urlencoded serializer" + (" (parse does: `+` in a written value is percent-encoded, see C11.encode)" if reads_form else ""))
+    # the parsers set no length limit of their own on the percent-ENCODED text: an identifier of at most 255 bytes takes up to three times as many
+    # characters once escaped, so a bound on the encoded path refuses URIs that Display has just written (the identifier validators bound the decoded bytes)
+    ctx.rule("C11.no-encoded-length-limit", "no parse function of matrix_uri compares the length of (a part of) the still percent-encoded input")
+    n_parse, lens = 0, []
+    for g in w.all_fns():
+        if "body" not in g or "identifiers::matrix_uri::" not in g["path"] or not re.search(r"::parse\w*(::\{closure#\d+\})*$", g["path"]):
+            continue
+        n_parse += 1
+        for body in M.all_bodies(g):
+            defs_ = PC.roots(body)
+            for _, c in M.calls(body):
+                cn = M.callee_name(c)
+                if cn.rsplit("::", 1)[-1] in ("len", "count") and ("<impl str>::len" in cn or "Chars" in " ".join(c.get("fnargs") or []) or "<impl str>::chars" in json.dumps(PC.expr(body, defs_, c["args"][0]))):
+                    e_ = json.dumps(PC.expr(body, defs_, c["args"][0]))
+                    if "percent_decode" not in e_ and "decode_utf8" not in e_ and "matches" not in e_ and not e_.startswith('["const"'):
+                        # only a length that is COMPARED is a limit (a length used to slice off a known prefix is not)
+                        d_ = c.get("dest")
+                        compared = isinstance(d_, int) and any(
+                            st[0] == "=" and st[2][0] == "bin" and st[2][1] in ("Gt", "Lt", "Ge", "Le") and
+                            any(o.get("k") in ("copy", "move") and o.get("pl") == d_ for o in st[2][2:4])
+                            for b_ in body["blocks"] for st in b_["s"])
+                        if compared:
+                            lens.append((g, c["line"]))
+    ctx.floor("parse functions of matrix_uri", n_parse, 4)
+    for g, line in lens[:3]:
+        ctx.violation("C11.no-encoded-length-limit", f"C11.no-encoded-length-limit:{PC.key_path(g['path']).rsplit('::', 2)[-2]}::{PC.key_path(g['path']).rsplit('::', 1)[-1]}", w.where(g, line),
+                      f"{g['path']} takes the length of text that is still percent-encoded: a limit on it refuses the URI of a valid identifier that needs escaping "
+                      f"(80 three-byte characters are 240 bytes but 720 encoded characters)")
+    if not lens:
+        ctx.ok("C11.no-encoded-length-limit", "C11.no-encoded-length-limit:scan", "", f"{n_parse} parse functions, no length taken of encoded text")
     # an event URI's room part is read back as RoomOrAliasId, a room URI's as RoomId / RoomAliasId: what one accepts the other must accept
     from . import C10 as _C10
     _C10.or_alias_dispatch_rule(ctx, w, "C11.or-alias")
